@@ -11,6 +11,8 @@
                                  client's cookie store (equal name: last wins) into one Cookie header;
                                  out = Cookie(n1),Cookie(n2),… (comma-joined hex)
     K line [line2] name          one or two raw Cookie header lines, Cookie(name)
+    RA xrealip xfwd remoteaddr   c.RemoteAddr() of a request carrying these header values (empty = header absent) and RemoteAddr
+    BD body                      c.Request().Body().Bytes() and .String() of a request with this body (must agree)
   out: hex / integers / `err` / `nomatch`; floats as IEEE bits (answered by the oracle `E PF s bits`).
 -/
 import Flamego.Model.Access
@@ -106,6 +108,8 @@ def runOp (o : Oracle) : List String → String
     if ws.isEmpty || rest.length % 2 != 0 then "bad-op" else
     let hdr := clientCookieHeader (setCookies ws)
     joinWith "," (ws.map fun w => (cookie [hdr] w.1).toHex)
+  | ["RA", x, f, r] => (remoteAddr (hexOf x) (hexOf f) (hexOf r)).toHex
+  | ["BD", b] => (bodyBytes (hexOf b)).toHex
   | ["K", line, name] => (cookie [hexOf line] (hexOf name)).toHex
   | ["K", l1, l2, name] => (cookie [hexOf l1, hexOf l2] (hexOf name)).toHex
   | _ => "bad-op"
